@@ -7,6 +7,23 @@
 #[macro_use]
 pub mod common;
 
+#[cfg(kani)]
+#[macro_use]
+pub mod kinds;
+#[cfg(kani)]
+#[macro_use]
+pub mod tables;
+#[cfg(kani)]
+pub mod fixed;
+
+#[cfg(all(kani, feature = "c01"))]
+pub mod c01;
+#[cfg(all(kani, feature = "c02"))]
+pub mod c02;
+#[cfg(all(kani, feature = "c03"))]
+pub mod c03;
+#[cfg(all(kani, feature = "c04"))]
+pub mod c04;
 #[cfg(all(kani, feature = "c17"))]
 pub mod c17;
 #[cfg(all(kani, feature = "c07"))]
